@@ -499,6 +499,12 @@ func (e *Engine) Discharge(results []*FnResult, timeoutS int, workers int) {
 				}
 				if os.Getenv("GOVC_KEEP") != "" && ob.Status != "discharged" {
 					os.MkdirAll(os.Getenv("GOVC_KEEP"), 0755)
+					if it.sliced != "" {
+						os.WriteFile(filepath.Join(os.Getenv("GOVC_KEEP"), sanitize(ob.fn.key+"_"+ob.Name)+".sliced.smt2"), []byte(it.sliced), 0644)
+					}
+					if it.relaxed != "" {
+						os.WriteFile(filepath.Join(os.Getenv("GOVC_KEEP"), sanitize(ob.fn.key+"_"+ob.Name)+".relaxed.smt2"), []byte(it.relaxed), 0644)
+					}
 					os.WriteFile(filepath.Join(os.Getenv("GOVC_KEEP"), sanitize(ob.fn.key+"_"+ob.Name)+".smt2"), []byte(it.script), 0644)
 				}
 			}
